@@ -32,6 +32,17 @@ type (
 	gID = tables.GlyphID
 )
 
+// gid16 converts a glyph id to the 16 bits of the layout tables (GSUB, GPOS, GDEF, morx, kerx).
+// An id above 0xFFFF (it may come from a cmap format 12 or 13) is in no coverage, class or lookup:
+// it is sent to 0xFFFF, which no font defines since maxp.numGlyphs <= 0xFFFF,
+// instead of being matched as gid & 0xFFFF.
+func gid16(g GID) gID {
+	if g > 0xFFFF {
+		return 0xFFFF
+	}
+	return gID(g)
+}
+
 // Direction is the text direction.
 // The zero value is the initial, unset, invalid direction.
 type Direction uint8
